@@ -217,6 +217,10 @@ namespace nmtools::array
         constexpr auto resize(size_types...shape)
             -> meta::enable_if_t<(meta::is_index_v<size_types> && ...),bool>
         {
+            // one extent per dimension: fewer would be zero-filled (a shape with a zero extent), not refused
+            if (sizeof...(size_types) != dimension) {
+                return false;
+            }
             return resize(shape_type{static_cast<size_t>(shape)...});
         } // resize
 
